@@ -42,6 +42,9 @@ type respSpec struct {
 	setLength   bool   // inner handler sets Content-Length
 	chunks      [][]byte
 	extraHdr    map[string]string
+	early       []int // informational responses (103, 102) sent before the final status
+	flushFirst  bool  // the handler flushes before it has written anything
+	flushAt     int   // ... and before chunk number flushAt (-1 = never)
 }
 
 func (s respSpec) body() []byte { return bytes.Join(s.chunks, nil) }
@@ -137,6 +140,14 @@ func genResp(t *rapid.T) respSpec {
 	if rapid.Bool().Draw(t, "etag") {
 		s.extraHdr["Etag"] = `"abc"`
 	}
+	if rapid.IntRange(0, 5).Draw(t, "informational") == 0 {
+		s.early = rapid.SampledFrom([][]int{{103}, {103, 103}, {102}}).Draw(t, "early")
+	}
+	s.flushFirst = rapid.IntRange(0, 5).Draw(t, "flushfirst") == 0
+	s.flushAt = -1
+	if len(s.chunks) > 0 && rapid.IntRange(0, 3).Draw(t, "flushmid") == 0 {
+		s.flushAt = rapid.IntRange(0, len(s.chunks)-1).Draw(t, "flushat")
+	}
 	return s
 }
 
@@ -154,10 +165,28 @@ func innerHandler(s respSpec) http.Handler {
 		for k, v := range s.extraHdr {
 			w.Header().Set(k, v)
 		}
+		flush := func() {
+			if f, ok := w.(http.Flusher); ok {
+				f.Flush()
+			}
+		}
+		for _, code := range s.early {
+			w.Header().Set("Link", "</style.css>; rel=preload")
+			w.WriteHeader(code)
+		}
+		if len(s.early) > 0 {
+			w.Header().Del("Link")
+		}
+		if s.flushFirst && s.status == 200 && !s.explicit {
+			flush() // commits an implicit 200
+		}
 		if s.explicit {
 			w.WriteHeader(s.status)
 		}
-		for _, c := range s.chunks {
+		for i, c := range s.chunks {
+			if i == s.flushAt {
+				flush()
+			}
 			w.Write(c)
 		}
 	})
@@ -238,7 +267,20 @@ func judge(fatalf func(string, ...any), s respSpec, r reqSpec, w wire, plain wir
 			fatalf("uncompressed body altered: %d bytes, without gzip handler %d bytes\n%s", len(w.body), len(plain.body), ctx)
 		}
 		for _, h := range []string{"Content-Encoding", "Content-Length", "Content-Type", "X-Inner", "Etag"} {
-			if a, b := w.header.Get(h), plain.header.Get(h); a != b {
+			a, b := w.header.Get(h), plain.header.Get(h)
+			if h == "Content-Length" && !s.setLength {
+				// the handler announced no length: whether the HTTP stack computes one or uses
+				// chunked framing is its own business (a flush decides it); a length that is
+				// there must be right
+				if a != "" && bodyVisible && a != strconv.Itoa(len(w.body)) {
+					fatalf("Content-Length %s on an uncompressed response of %d bytes\n%s", a, len(w.body), ctx)
+				}
+				continue
+			}
+			if h == "Content-Type" && b == "" && s.contentType == "" {
+				continue // the upstream sent no type at all (it flushed first): the last hop's server may sniff one
+			}
+			if a != b {
 				fatalf("header %s = %q, without the gzip handler %q\n%s", h, a, b, ctx)
 			}
 		}
@@ -280,6 +322,10 @@ func record(h http.Handler, r reqSpec) wire {
 }
 
 func ctxOf(s respSpec, r reqSpec) string {
+	return ctxOf0(s, r) + fmt.Sprintf("\ninformational responses first: %v, flush before anything is written: %v, flush before chunk: %d", s.early, s.flushFirst, s.flushAt)
+}
+
+func ctxOf0(s respSpec, r reqSpec) string {
 	var sizes []int
 	for _, c := range s.chunks {
 		sizes = append(sizes, len(c))
@@ -293,6 +339,7 @@ func TestC17Handler(t *testing.T) {
 		if r.method == "HEAD" {
 			r.method = "GET" // the recorder has no protocol rules; HEAD is exercised behind a real server
 		}
+		s.early = nil // likewise informational responses
 		inner := innerHandler(s)
 		got := record(gzip.NewGzipHandler(inner, ctRe), r)
 		plain := record(inner, r)
@@ -355,7 +402,11 @@ func rawExchange(addr string, r reqSpec, path string) (wire, error) {
 	if _, err := c.Write([]byte(req)); err != nil {
 		return wire{}, err
 	}
-	resp, err := http.ReadResponse(bufio.NewReader(c), &http.Request{Method: r.method})
+	br := bufio.NewReader(c)
+	resp, err := http.ReadResponse(br, &http.Request{Method: r.method})
+	for err == nil && resp.StatusCode >= 100 && resp.StatusCode < 200 && resp.StatusCode != 101 {
+		resp, err = http.ReadResponse(br, &http.Request{Method: r.method}) // informational responses precede the final one
+	}
 	if err != nil {
 		return wire{}, err
 	}
@@ -435,6 +486,7 @@ func TestC17Concurrent(t *testing.T) {
 		reqs := make([]reqSpec, G)
 		for g := range specs {
 			specs[g], reqs[g] = genResp(t), genReq(t)
+			specs[g].early = nil // the recorder has no protocol rules for informational responses
 			if reqs[g].method == "HEAD" {
 				reqs[g].method = "GET"
 			}
